@@ -51,6 +51,9 @@ def gen(rng):
         sfx = rng.choice(['', '', '', ' 50%', '%s', '%d', '{0}', '%(x)s'])
         nm = 'a%d' % i + sfx
         if cls == 'ok':
+            if rng.random() < 0.12:
+                # 246-255 bytes of multi-byte characters: '<name>.trashinfo' is too long for the kernel, the name gets shortened
+                nm = rng.choice(['я' * 122, '日' * 83, 'é' * 121, '😀' * 61]) + 'x' * rng.randint(0, 4) + str(i)
             p = wd + '/' + nm
             G.make_entry(rng, p, rng.choice(['file', 'dir', 'link_dangling', 'empty']), steps, aux)
         elif cls == 'emptystr':
